@@ -134,6 +134,7 @@ def gen_closure(problems):
                 facts['createDeclaresSelfFreevars'] = _u(n.args[4]) == 'self._freevars'
                 facts['createArgsAreExtraLocalKeys'] = _u(n.args[5]) == 'self._extra_locals.keys()'
     inst = _find(tp, ['_PythonFnFactory', 'instantiate'])
+    stmts = []
     facts.update(cellMatch='unknown', lengthCheck=False, ftGlobals='unknown', ftClosure='unknown', ftArgdefs='unknown',
                  ftCode='unknown', callsWithExtraLocals=False, defaultsGuard='unknown', kwdefaultsGuard='unknown',
                  defaultsValue='unknown', kwdefaultsValue='unknown')
@@ -173,6 +174,38 @@ def gen_closure(problems):
             facts['ftCode'] = 'factoryCode' if kw.get('code') == 'factory_code' else 'unknown'
         nf = assigns.get('new_fn')
         facts['callsWithExtraLocals'] = _u(nf) == 'bound_factory(**self._extra_locals)'
+        # ---- the body of instantiate as a statement list, in source order (interpreted by the model: `runStmts`)
+        for st in inst.body:
+            if isinstance(st, ast.Expr) and isinstance(st.value, ast.Constant) and isinstance(st.value.value, str):
+                continue                                               # docstring
+            u = _u(st)
+            if isinstance(st, ast.If) and _u(st.test) == 'self._unbound_factory is None' and \
+                    any(isinstance(x, ast.Raise) for x in st.body):
+                stmts.append('.guardCreated')
+            elif u in ('factory_code = self._unbound_factory.__code__', 'factory_freevars = factory_code.co_freevars'):
+                stmts.append('.bookkeeping')
+            elif u == 'closure_map = dict(zip(self._freevars, closure))':
+                stmts.append('.closureMap')
+            elif isinstance(st, ast.Assign) and _u(st.targets[0]) == 'factory_closure':
+                stmts.append('.matchCells ' + ('.byName' if by_name else '.unknown'))
+            elif isinstance(st, ast.If) and _u(st.test) == 'len(factory_closure) != len(closure)' and \
+                    any(isinstance(x, ast.Raise) for x in st.body):
+                stmts.append('.lengthCheck')
+            elif isinstance(st, ast.Assign) and _u(st.targets[0]) == 'bound_factory':
+                stmts.append('.bindFactory .%s .%s .%s .%s' % (facts['ftCode'], facts['ftGlobals'], facts['ftArgdefs'], facts['ftClosure']))
+            elif isinstance(st, ast.Assign) and _u(st.targets[0]) == 'new_fn':
+                stmts.append('.callFactory %s' % ('true' if facts['callsWithExtraLocals'] else 'false'))
+            elif isinstance(st, ast.If) and len(st.body) == 1 and isinstance(st.body[0], ast.Assign) and not st.orelse \
+                    and _u(st.body[0].targets[0]) == 'new_fn.__defaults__':
+                stmts.append('.restoreDefaults .%s .%s' % (facts['defaultsGuard'], facts['defaultsValue']))
+            elif isinstance(st, ast.If) and len(st.body) == 1 and isinstance(st.body[0], ast.Assign) and not st.orelse \
+                    and _u(st.body[0].targets[0]) == 'new_fn.__kwdefaults__':
+                stmts.append('.restoreKwdefaults .%s .%s' % (facts['kwdefaultsGuard'], facts['kwdefaultsValue']))
+            elif isinstance(st, ast.Return) and _u(st.value) == 'new_fn':
+                stmts.append('.returnNewFn')
+            else:
+                stmts.append('.unknown ' + _lean_str(u[:80]))
+                problems.append('instantiate: statement not recognised: ' + u[:80])
 
     # ---------------------------------------------------------------- PyToPy.transform_function
     tf = _find(tp, ['PyToPy', 'transform_function'])
@@ -282,6 +315,25 @@ def gen_closure(problems):
     for k, t, _ in fields:
         L.append('  %s : %s' % (k, t))
     L.append('  deriving DecidableEq, Repr')
+    L.append('')
+    L.append('/-- One statement of `_PythonFnFactory.instantiate`. -/')
+    L.append('inductive Stmt where')
+    L.append('  | guardCreated                      -- if self._unbound_factory is None: raise ValueError')
+    L.append('  | bookkeeping                       -- factory_code = … / factory_freevars = …')
+    L.append('  | closureMap                        -- closure_map = dict(zip(self._freevars, closure))')
+    L.append('  | matchCells (how : CellMatch)      -- factory_closure = tuple(closure_map[name] for name in factory_code.co_freevars)')
+    L.append('  | lengthCheck                       -- if len(factory_closure) != len(closure): raise ValueError')
+    L.append('  | bindFactory (code globals argdefs closure : Source)   -- bound_factory = types.FunctionType(…)')
+    L.append('  | callFactory (extraLocals : Bool)  -- new_fn = bound_factory(**self._extra_locals)')
+    L.append('  | restoreDefaults (g : Guard) (v : Source)     -- if defaults: new_fn.__defaults__ = defaults')
+    L.append('  | restoreKwdefaults (g : Guard) (v : Source)   -- if kwdefaults: new_fn.__kwdefaults__ = kwdefaults')
+    L.append('  | returnNewFn')
+    L.append('  | unknown (text : String)')
+    L.append('  deriving DecidableEq, Repr')
+    L.append('')
+    L.append('/-- The body of `instantiate`, statement by statement, in source order. -/')
+    L.append('def instantiateStmts : List Stmt :=')
+    L.append('  [' + ',\n   '.join(stmts) + ']')
     L.append('')
     L.append('/-- The shape read off the working tree. -/')
     L.append('def shape : Shape :=')
